@@ -315,6 +315,15 @@ class Builder(object):
         c, a, b = simp(self.t(node.test)), simp(self.t(node.body)), simp(self.t(node.orelse))
         if c == a:
             return ('or', a, b)          # x if x else d  is  x or d
+        # a negated test is the positive test with the branches swapped
+        flip = {'notin': 'in', 'isnot': 'is', '!=': '=='}
+        while True:
+            if isinstance(c, tuple) and c and c[0] == 'not':
+                c, a, b = c[1], b, a
+            elif isinstance(c, tuple) and c and c[0] == 'cmp' and c[1] in flip:
+                c, a, b = ('cmp', flip[c[1]]) + c[2:], b, a
+            else:
+                break
         return ('ifexp', c, a, b)
 
     # bound variables (lambda arguments, comprehension targets) are alpha-renamed to canonical
@@ -618,6 +627,38 @@ def substitute(t, old, new):
     if isinstance(t[0], str):
         return (t[0],) + tuple(substitute(x, old, new) if isinstance(x, tuple) else x for x in t[1:])
     return tuple(substitute(x, old, new) if isinstance(x, tuple) else x for x in t)
+
+
+def find_free_ifexp(t):
+    """a conditional sub-term that is not inside a lambda / comprehension (its test does not depend on bound variables)"""
+    if not isinstance(t, tuple) or not t:
+        return None
+    if t[0] == 'ifexp':
+        return t
+    if t[0] in ('lambda', 'listcomp', 'genexp', 'setcomp', 'dictcomp'):
+        return None
+    for x in t[1:]:
+        r = find_free_ifexp(x)
+        if r is not None:
+            return r
+    return None
+
+
+def free_cases(t, limit=64):
+    """like cases(), but conditionals under binders are left alone"""
+    out = []
+    work = [((), t)]
+    while work:
+        lits, cur = work.pop()
+        ie = find_free_ifexp(cur)
+        if ie is None:
+            out.append((lits, cur))
+            continue
+        if len(out) + len(work) > limit:
+            raise AnalysisError('too many conditional cases')
+        work.append((lits + ((ie[1], True),), simp(substitute(cur, ie, ie[2]))))
+        work.append((lits + ((ie[1], False),), simp(substitute(cur, ie, ie[3]))))
+    return out
 
 
 def find_ifexp(t):
